@@ -232,9 +232,24 @@ def execute(plan, want_refs=True, timeout=120.0, coverage=False):
             ref = memo[key]
             stats["refs"] += 1
             if ref["status"] not in ("ok", "exc"):
-                raise HarnessChildError(f"reference of {r['id']} ended with status {ref['status']}")
+                # the chain cannot even be evaluated in isolation (a producer that worked in the history fails alone)
+                viol("O1", r, "isolated-run-differs-in-kind", f"in isolation the chain ends with status {ref['status']} at {ref['id']}")
+                continue
             stats["o1_compared"] += 1
             d = C.diff(r["result"], ref["result"])
+            if d and numeric_only(r["result"], ref["result"]):
+                # before a purely numerical difference is reported: is the isolated answer itself stable when only the
+                # memory layout of the process changes?  (BLAS kernels may round differently for other alignments; an
+                # ill-conditioned system amplifies that - not a property of the history)
+                stable = True
+                for salt in (1, 2):
+                    alt = fork_call(lambda ch=ch, salt=salt: engine.run_chain(plan, ch, perturb=salt), timeout)
+                    stats["ref_forks"] += 1
+                    if alt["status"] in ("ok", "exc") and C.diff(alt["result"], ref["result"]):
+                        stable = False
+                if not stable:
+                    stats["layout_sensitive_unjudged"] = stats.get("layout_sensitive_unjudged", 0) + 1
+                    d = None
             if d:
                 viol("O1", r, "differs-from-isolated", d)
             if ref.get("o2"):
@@ -249,6 +264,17 @@ def execute(plan, want_refs=True, timeout=120.0, coverage=False):
     return {"coverage": hist.get("coverage", []), "discarded": discarded, "violations": violations, "stats": stats, "schedule_digest": sched, "result_digest": resd,
             "probes": hist["probes"], "disk_probes": hist["disk_probes"], "records": recs,
             "open_handles": hist["open_handles"]}
+
+
+def numeric_only(a, b):
+    """True when two canonical forms have the same shape and differ in numbers only"""
+    if isinstance(a, (int, float, complex)) and not isinstance(a, bool) and isinstance(b, (int, float, complex)) and not isinstance(b, bool):
+        return True
+    if type(a) != type(b):
+        return False
+    if isinstance(a, list):
+        return len(a) == len(b) and all(numeric_only(x, y) for x, y in zip(a, b))
+    return a == b
 
 
 def obj_kind(plan, idx, name):
